@@ -1,7 +1,9 @@
 import PyGam.Proofs.Solve
 import PyGam.Proofs.NormalEq
 import PyGam.Proofs.Stationary
+import PyGam.Proofs.EigFactor
 import Mathlib.Algebra.Order.BigOperators.Ring.Finset
+import PyGam.Gen.Formulas
 /-!
 # C01 — fit returns the penalised (quasi-)likelihood optimum of the specified model
 
@@ -210,5 +212,70 @@ example : ∃ F : Solve.Factor ℚ 1 1 1, F.WB = !![3] ∧ F.A = !![16] :=
      uorth := by ext i j; fin_cases i; fin_cases j; norm_num [Matrix.mul_apply],
      vorth := by ext i j; fin_cases i; fin_cases j; norm_num [Matrix.mul_apply],
      dne := by intro i; norm_num }, rfl, rfl⟩
+
+/-! ### the factor handed to the solve when the Cholesky factorisation breaks down (repair c0c1d29)
+
+`solve_correct` takes the contract `EᵀE = S + P (+ C)` as a hypothesis.  `GAM._cholesky` meets it with a Cholesky factor
+or — when that fails by rounding, for `lam·‖P‖ ≳ 1e7` — with the eigen-factor `diag(√w) Vᵀ` of `eigh`, eigenvalues below
+the rounding level replaced by the ridge `√ε`. -/
+section eig_fallback
+open Matrix PyGam.EigFactor
+variable {ι : Type} [Fintype ι] [DecidableEq ι]
+
+/-- under the LAPACK contract of `eigh` (`A = V diag(w) Vᵀ`, `w ≥ 0`) the eigen-factor satisfies the contract of the
+solve, `EᵀE = A`: the fit is that of the specified model, no ridge is added -/
+theorem eig_fallback_meets_contract (A V : Matrix ι ι ℝ) (w : ι → ℝ) (hA : A = V * diagonal w * Vᵀ) (hw : ∀ i, 0 ≤ w i) :
+    (eigFactor V w)ᵀ * eigFactor V w = A := eigFactor_contract A V w hA hw
+
+/-- when eigenvalues are replaced (`w ↦ w'`), the matrix that is factored differs from `A` by `V diag(w' - w) Vᵀ`: only
+the replaced eigen-directions change, by the replacement (at most the rounding level `m ε max w` plus `√ε`) -/
+theorem eig_fallback_perturbation (A V : Matrix ι ι ℝ) (w w' : ι → ℝ) (hA : A = V * diagonal w * Vᵀ) (hw' : ∀ i, 0 ≤ w' i) :
+    (eigFactor V w')ᵀ * eigFactor V w' - A = V * diagonal (fun i => w' i - w i) * Vᵀ :=
+  eigFactor_replaced A V w w' hA hw'
+
+-- non-vacuity: V = 1, w = (4, 9): the factor is diag(2, 3)
+example : (eigFactor (1 : Matrix (Fin 2) (Fin 2) ℝ) ![4, 9])ᵀ * eigFactor 1 ![4, 9] = diagonal ![4, 9] := by
+  have := eig_fallback_meets_contract (diagonal ![4, 9]) (1 : Matrix (Fin 2) (Fin 2) ℝ) ![4, 9] (by simp)
+    (by intro i; fin_cases i <;> simp)
+  exact this
+
+end eig_fallback
+
+/-! ### tie to the source by translation of the formulas (`gen_formula_*`)
+
+`Gen/Formulas.lean` is regenerated on every run from the abstract syntax tree of `pygam/pygam.py`: `GAM._pseudo_data` and
+`GAM._W`, one entry each, with `self.link.gradient(·, self.distribution)` and `self.distribution.V` as function
+parameters (`sp.sparse.diags` of a vector is the vector of its diagonal).  The theorems state that the generated
+definitions ARE the model's `pseudoDatum` and the root of `workWeight2` (`Model/Pirls.lean`). -/
+section gen_formulas
+set_option linter.unusedSectionVars false
+
+/-- `GAM._pseudo_data`: `lp + (y - mu) * gradient(mu)` is `pseudoDatum` (by `rfl`, for every type with the notation classes) -/
+theorem gen_formula_pseudo_data {α : Type} [Zero α] [One α] [Add α] [Sub α] [Mul α] [Div α] [Neg α] [LE α] [LT α]
+    [DecidableLE α] [DecidableLT α] [ExpLog α] [HasLogSqrt α] (cfg : GlmCfg α) (lp y mu : α) :
+    Gen.pseudo_data (linkGrad cfg.link cfg.levels) y lp mu = pseudoDatum cfg lp y mu := rfl
+
+/-- `GAM._W`: `(gradient(mu)**2 * V(mu) * weights**-1) ** -0.5` is the square root of the model's `workWeight2`
+(the model keeps `W²`, the code `W`).  This tie is up to field identities (`1/(a·(1/w)) = w·1/a`, true in every field
+with `x/0 = 0`, no side condition) and the one law `sqrt (1/x) = 1 / sqrt x` of the square root, stated as the
+hypothesis `hinv`; `gen_formula_W_real` discharges it for `ℝ`.  Dropping the root, the square of the gradient or the
+inverse of the weights in the source makes the generated term a different function and the proof fails. -/
+theorem gen_formula_W {α : Type} [Field α] [LinearOrder α] [IsStrictOrderedRing α] [ExpLog α] [HasLogSqrt α]
+    (hinv : ∀ x : α, HasLogSqrt.sqrt (1 / x) = 1 / HasLogSqrt.sqrt x)
+    (cfg : GlmCfg α) (hcfg : cfg.expectile = none) (w y mu : α) :
+    Gen.W_GAM (linkGrad cfg.link cfg.levels) (varFn cfg.fam cfg.levels) mu w y
+      = HasLogSqrt.sqrt (workWeight2 cfg w y mu) := by
+  unfold Gen.W_GAM workWeight2 asymWeight
+  rw [← hinv, hcfg]
+  congr 1
+  simp only [mul_inv_rev, inv_inv, mul_one, one_mul, div_eq_mul_inv]
+
+/-- over `ℝ` (`Real.sqrt`) the law holds for every argument, so the tie is unconditional there -/
+theorem gen_formula_W_real (cfg : GlmCfg ℝ) (hcfg : cfg.expectile = none) (w y mu : ℝ) :
+    Gen.W_GAM (linkGrad cfg.link cfg.levels) (varFn cfg.fam cfg.levels) mu w y
+      = Real.sqrt (workWeight2 cfg w y mu) :=
+  gen_formula_W (fun x => by simp [one_div, Real.sqrt_inv]) cfg hcfg w y mu
+
+end gen_formulas
 
 end PyGam.C01
